@@ -294,7 +294,7 @@ def run(ctx):
   jobrec = {j["n"]: j["job"] for j in jobs}
   histories = [[jobrec[n] for n in h] for h in maximal]
   recs, runs, root = conduct(ctx, deep, jobs, configs, histories, SEEDS, deep)
-  some = next(r for r in recs if r["kind"] == "run" and len(r["jobrecs"]) == 3)
+  some = max((r for r in recs if r["kind"] == "run"), key=lambda r: len(r["jobrecs"]))
   ctx.sample({"history": [[j["content"], j["itype"], j["iext"], j["otype"], j["oext"], j["cfgfile"], j["inline"], j["filters"]] for j in some["jobrecs"]],
               "hashseed": some["seed"], "steps": some["steps"],
               "command_line_of_first_job": [a.replace(root, "<work>") for a in runs[some["id"]]["jobs"][0]["argv"]]})
